@@ -2,7 +2,9 @@ package props
 
 import (
 	"bytes"
+
 	"fmt"
+	bip39 "github.com/islishude/bip39"
 	"strings"
 	"testing"
 	"unicode/utf8"
@@ -30,6 +32,11 @@ var c11Check = register("C11", "c11.equiv", func(c *equivSeedCase) error {
 	if ref.NFKD(m) != ref.NFKD(m2) || ref.NFKD(p) != ref.NFKD(p2) {
 		harnessError("c11: the two spellings are not NFKD-equal")
 	}
+	// the flow wallets use: validate, then derive — a sentence that was just rejected (or accepted)
+	// must still derive the seed of its own NFKD form
+	implCheck("legal winner thank year wave sausage worth useful legal winner thank yellow", bip39.English)
+	implCheck(m, bip39.English)
+	implCheck(m2, bip39.Japanese)
 	a, pa := implSeed(m, p)
 	b, pb := implSeed(m2, p2)
 	sig := "C11 seed-equiv " + c.Method
